@@ -167,6 +167,11 @@ class Report:
         self.lines = []
 
     def add(self, o):
+        # A counterexample of the symbolic engines is reported as a violation only after it was reproduced against the real
+        # build (native replay); otherwise the encoding (a havocked call, a missing summary) may be at fault: inconclusive.
+        if o.verdict == "violated" and not o.stats.get("traces_validated") and not os.environ.get("VERIF_NO_REPLAY_GATE"):
+            o.verdict = "inconclusive"
+            o.detail = "solver counterexample without native confirmation (not reported as a violation): " + (o.detail or "")
         self.obls.append(o)
         say("  [%s] %-44s %-13s q=%d t=%.1fs %s" % (
             self.prop, o.name, o.verdict, o.queries, o.solver_s, o.detail[:140]))
